@@ -225,8 +225,12 @@ def child_expand(env, path, opts, names):
     return res
 
 
-def cli_args(path, opts):
-    """The `eups expandtable` command line for these options, or None when the CLI cannot express them."""
+CLI_MODES = ["stdout", "stdout", "inplace", "outdir", "stdin", "warn"]
+
+
+def cli_args(path, opts, mode="stdout"):
+    """The `eups expandtable` command line for these options, or None when the CLI cannot express them.  mode: where the text
+    goes / comes from -- stdout, inplace (-i), outdir (second argument), stdin (`-`), warn (-W regexp: warnings only)."""
     pins = opts["pins"]
     if not opts.get("recurse", True) or any((not v) or ":" in v or "=" in v or ":" in k or "=" in k for k, v in pins.items()):
         return None
@@ -239,26 +243,61 @@ def cli_args(path, opts):
         a.append("-N")
     if not opts["addExactBlock"]:
         a.append("--noExact")
-    top_from_file = os.path.basename(path)[:-len(".table")]
+    if mode == "warn":
+        a += ["-W", "^[vV]"]
+    top_from_file = None if mode == "stdin" else os.path.basename(path)[:-len(".table")]
     if opts["toplevel"] is None:
-        return None                      # the CLI always derives a name from the file
-    if opts["toplevel"] != top_from_file:
+        if top_from_file is not None:
+            return None                  # with a file name the CLI always derives a product name from it
+    elif opts["toplevel"] != top_from_file:
         a += ["-P", opts["toplevel"]]
     return a + [path]
 
 
-def child_cli(env, args):
-    """`eups expandtable ...` through the command class, standard output captured."""
+def child_cli(env, args, mode="stdout", workdir=None):
+    """`eups expandtable ...` through the command class.  -> where the expansion went ("out"), the return code / exception,
+    and for the modes that write files what is left on disk."""
+    import shutil
+    import sys
     import eups.cmd
     os.environ.clear()
     os.environ.update(env)
+    args = list(args)
+    src = args[-1]
+    res = {"mode": mode}
+    target = None
+    if mode in ("inplace", "outdir"):
+        shutil.rmtree(workdir, ignore_errors=True)
+        os.makedirs(os.path.join(workdir, "out"))
+    if mode == "inplace":
+        target = os.path.join(workdir, os.path.basename(src))
+        shutil.copy(src, target)
+        args = args[:-1] + ["-i", target]
+    elif mode == "outdir":
+        target = os.path.join(workdir, "out", os.path.basename(src))
+        args = args + [os.path.join(workdir, "out")]
+    elif mode == "stdin":
+        args = args[:-1] + ["-"]
     out = io.StringIO()
+    old_stdin = sys.stdin
     with _quiet(), contextlib.redirect_stdout(out):
         try:
-            rc = eups.cmd.EupsCmd(args=list(args), toolname="eups").run()
+            if mode == "stdin":
+                sys.stdin = open(src)
+            rc = eups.cmd.EupsCmd(args=args, toolname="eups").run()
+            res["rc"] = rc
         except Exception as ex:  # noqa
-            return {"err": type(ex).__name__, "errmsg": str(ex)[:200]}
-    return {"out": out.getvalue(), "rc": rc}
+            res.update(err=type(ex).__name__, errmsg=str(ex)[:200])
+        finally:
+            sys.stdin = old_stdin
+    res["stdout"] = out.getvalue()
+    if target is not None:
+        res["file"] = open(target).read() if os.path.exists(target) else None
+        with open(src) as f:
+            res["src"] = f.read()
+        res["leftover"] = sorted(x for x in os.listdir(os.path.dirname(target)) if x.endswith(".tmp"))
+    res["out"] = res["stdout"] if target is None else res.get("file")
+    return res
 
 
 def child_actions(env, paths):
@@ -356,9 +395,10 @@ def run_case(w, case):
         r = call(child_expand, env1, p, o, names)
         r["text"] = text
         r["opts"] = o
-        ca = cli_args(p, o)
+        mode = case.get("cli_mode", "stdout")
+        ca = cli_args(p, o, mode)
         if ca is not None and case.get("cli_check"):
-            r["cli"] = call(child_cli, env1, ca)
+            r["cli"] = call(child_cli, env1, ca, mode, os.path.join(w.vdir, "cli"))
         res["exps"].append(r)
     main = res["exps"][0]
     if "out" in main and not res.get("tampered"):
@@ -539,8 +579,8 @@ def oracle_exact_actions(case, res):
     for a in xa["acts"]:
         if a["cmd"] != "setupRequired" or "--external" in a["args"] or (a["args"] and a["args"][0] == "eups"):
             continue
-        ar = a["args"]
-        if not (len(ar) == 3 and ar[1] == "-j" and (built.get(ar[0]) == ar[2] or pins.get(ar[0]) == ar[2])):
+        ar = [x for x in a["args"] if x != "-j"]           # (the flag may stand anywhere: Action.processArgs)
+        if not ("-j" in a["args"] and len(ar) == 2 and (built.get(ar[0]) == ar[1] or pins.get(ar[0]) == ar[1])):
             yield "exact mode applies the setup command %r, which is not a -j pin of a build-time record" % (ar,)
     others_x = [[a["cmd"], a["args"]] for a in xa["acts"] if not is_setup(a["cmd"])]
     others_o = [[a[0], a[1]] for a in acts[0] if not is_setup(a[0])]
@@ -870,9 +910,21 @@ def evaluate(ctx, cases):
                 # the command-line glue (option parsing, -p list, top-level name from the file name) against the API call
                 cli = exp["cli"]
                 ctx.hist("cli_checked")
-                same = (cli.get("out") == exp["out"] and cli.get("rc") in (0, None)) if "out" in exp else ("err" in cli or cli.get("rc") not in (0, None))
+                ctx.hist("cli_mode=%s" % cli.get("mode"))
+                if "child" in cli:
+                    raise common.InfraError("CLI child failed: %r" % (cli["child"],))
+                failed = "err" in cli or cli.get("rc") not in (0, None)
+                if "out" in exp:
+                    same = (not failed) and cli.get("out") == exp["out"]
+                    if cli.get("mode") in ("inplace", "outdir"):
+                        same = same and cli.get("stdout") == "" and not cli.get("leftover")
+                else:
+                    same = failed
+                    if cli.get("mode") == "inplace":       # a refused expansion leaves the table as it was and no temporary file behind
+                        same = same and cli.get("file") == cli.get("src") and not cli.get("leftover")
                 if not same:
-                    ctx.disagree("cli_vs_api", {"case": inp, "expansion": ei}, {k: cli.get(k) for k in ("out", "rc", "err", "errmsg")},
+                    ctx.disagree("cli_vs_api", {"case": inp, "expansion": ei},
+                                 {k: cli.get(k) for k in ("mode", "out", "rc", "err", "errmsg", "stdout", "leftover")},
                                  {"out": exp.get("out"), "err": exp.get("err")})
         main = r["exps"][0]
         if r.get("tampered"):
